@@ -70,6 +70,7 @@ func (vc *VC) execInstr(fx *FuncCtx, in ssa.Instruction, st *State, fr *Frame) {
 		elem := x.Addr.Type().Underlying().(*types.Pointer).Elem()
 		p := asPtr(vc.val(fx, fr, x.Addr), elem)
 		vc.nilCheck(fx, st, p, x.Pos())
+		vc.lockCheck(fx, st, p, true, x.Pos())
 		v := vc.val(fx, fr, x.Val)
 		if _, isIface := under(elem).(*types.Interface); isIface {
 			v = st.toIface(v)
@@ -207,6 +208,46 @@ func intOf(t *Term) *Term {
 	return t
 }
 
+// lockCheck: a field declared `guarded F by M` is read or written only while M of the same object is held (write
+// lock for stores, read or write lock for loads). Objects this function allocated itself and has not published are
+// exempt (constructors).
+func (vc *VC) lockCheck(fx *FuncCtx, st *State, p *PtrV, write bool, pos token.Pos) {
+	if !vc.locksafe || p == nil || p.Kind != PHeap || p.Base == nil || len(p.Alts) > 0 {
+		return
+	}
+	var mu, field string
+	for f, m := range vc.prog.guarded {
+		if p.Key == f || keyHasPrefix(p.Key, f) {
+			mu, field = m, f
+		}
+	}
+	if mu == "" {
+		return
+	}
+	if _, own := vc.localObjs[p.Base]; own {
+		return
+	}
+	id := mu + "@" + termKey(p.Base)
+	held := st.lockState("w:" + id)
+	if !write {
+		held = Or(held, st.lockState("r:"+id))
+	}
+	what := "read"
+	if write {
+		what = "write"
+	}
+	vc.check(fx, st, held, "unprotected "+what+" of "+field+" (guarded by "+mu+")", pos)
+}
+
+// lockState: whether a lock is held; before the function has locked or unlocked it itself the answer is whatever the
+// caller left (an unknown that `requires held(...)` can pin down).
+func (st *State) lockState(key string) *Term {
+	if h, ok := st.held[key]; ok {
+		return h
+	}
+	return Var("lock0:"+key, BoolSort)
+}
+
 func (vc *VC) nilCheck(fx *FuncCtx, st *State, p *PtrV, pos token.Pos) {
 	if len(p.Alts) > 0 {
 		vc.check(fx, st, Not(Eq(st.ptrTerm(p), IntC(0))), "nil dereference", pos)
@@ -239,6 +280,7 @@ func (vc *VC) unop(fx *FuncCtx, x *ssa.UnOp, st *State, fr *Frame) Val {
 		elem := x.X.Type().Underlying().(*types.Pointer).Elem()
 		p := asPtr(v, elem)
 		vc.nilCheck(fx, st, p, x.Pos())
+		vc.lockCheck(fx, st, p, false, x.Pos())
 		if at, ok := under(elem).(*types.Array); ok && p.Kind == PHeap && p.Idx == nil {
 			if s := scalarSort(at.Elem()); s != nil {
 				ki := vc.reg.get(elemKey(at.Elem()), 2, s, IntSort)
